@@ -28,6 +28,11 @@ def defined (P : Params) (n : Nat) : Nat :=
 
 theorem roundtrip_p19_b2 : allOk (toy 19 2) 19 = true := by decide +kernel
 theorem roundtrip_p43_b7 : allOk (toy 43 7) 43 = true := by decide +kernel
+/-- on `y² = x³ + 8` over `F₁₉` a point of order 2 exists (and btclib's `_constants` accepts the curve): before
+/repo c67c7290 the inverse answered `t = 0` there, which the forward map reads as `t = 1` (90 of 408 preimages did
+not map back); with `return t or None` mirrored in the model the round trip holds on this curve too -/
+theorem roundtrip_p19_b8 : allOk (toy 19 8) 19 = true := by decide +kernel
+theorem defined_p19_b8 : defined (toy 19 8) 19 = 318 := by decide +kernel
 theorem defined_p19_b2 : defined (toy 19 2) 19 = 300 := by decide +kernel
 
 end Btc.C16.Swift
